@@ -311,22 +311,31 @@ theorem wok_ARRAY_APPEND (md : Module) (ins : Instr) (orc : Oracle) (N : Nat) (s
 
 set_option maxRecDepth 16000 in
 set_option maxHeartbeats 16000000 in
-/-- the build-ins store their result at `sp` (or `sp − 1`), slots they have read — except `read` (id 12), which pushes WITHOUT
-`vm_check_stack` (libvm.c LIB_MATH_READ: `machine->sp++` and the store): it needs `sp + 1 < stackSize` from its caller -/
-theorem buildIn_wok (id : Nat) (orc : Oracle) (N : Nat) (s : Int) (h0 : -1 ≤ s) (h1 : s < N) (h12 : id = 12 → s + 1 < N) :
+/-- the build-ins store their result at `sp` (or `sp − 1`), slots they have read; `read` (id 12) pushes, with `vm_check_stack` before the
+store since the `fix:` commit 034394a -/
+theorem buildIn_wok (id : Nat) (orc : Oracle) (N : Nat) (s : Int) (h0 : -1 ≤ s) (h1 : s < N) :
     WOk N s (buildIn id orc) := by
   unfold buildIn
   refine WOk.getSp_bind ?_
-  refine WOk.rdAddr_bind (fun top hb => ?_)
-  dsimp only
-  split
-  all_goals (first | (have := h12 rfl; wok) | wok)
+  by_cases h12 : id = 12
+  · have hc : (id == 12) = true := by simp [h12]
+    simp only [hc, if_true]
+    refine WOk.keeps_bind (by keeps) (WOk.of_nowc (by nowc)) (fun top => ?_)
+    try dsimp only
+    split
+    all_goals first | exact absurd h12 (by decide) | wok
+  · have hc : (id == 12) = false := by simpa using h12
+    simp only [hc, Bool.false_eq_true, if_false]
+    refine WOk.rdAddr_bind (fun top hb => ?_)
+    try dsimp only
+    split
+    all_goals wok
 
-theorem wok_BUILD_IN (md : Module) (ins : Instr) (orc : Oracle) (N : Nat) (s : Int) (h0 : -1 ≤ s) (h1 : s < N) (h12 : ins.w0 = 12 → s + 1 < N)
+theorem wok_BUILD_IN (md : Module) (ins : Instr) (orc : Oracle) (N : Nat) (s : Int) (h0 : -1 ≤ s) (h1 : s < N)
     (h : ins.op = .BUILD_IN) : WOk N s (exec md ins orc) := by
   unfold exec
   simp only [h, binOpOf, unOpOf, convOf, nilCmpOf, strAddOf, arrOpOf, mkArrayElem]
   refine WOk.getSp_bind ?_
-  exact buildIn_wok _ _ _ _ h0 h1 h12
+  exact buildIn_wok _ _ _ _ h0 h1
 
 end Never.Vm
